@@ -368,3 +368,160 @@ def rule_dsread_light(ctx, R):
             R.violation(inst, where, expected=T.term_show(want, None), found='%s after `%s`; %s' % (T.term_show(got, None), ' ; '.join(tr), how or 'a different value'))
     if undecided and not nviol:
         raise AnalysisBroken('A64-DSREAD-LIGHT: ' + undecided[0])
+
+
+@memoised('A64-DSITEM-HSEM')
+def rule_dsitem(ctx, R):
+    R.rule('A64-DSITEM-HSEM', 'the hand-written pieces of the A64 dataset-item routine, executed on terms, are the steps of specification 7.3: r0 = (item + 1) * superscalarMul0, r_i = r0 ^ superscalarAdd_i; '
+           'cache line pointer = cache memory + (register value & (CacheSize / 64 - 1)) * 64 with the mask word generateSuperscalarHash writes; r_i ^= the i-th word of that line; the eight registers stored to the output in order; the word the generator emits after each round moves the address register of the program into the register-value register', min_instances=18)
+    FI = astq.Facts(ctx, 'K0')
+    mul0 = FI.const('randomx::superscalarMul0')
+    adds = [FI.const('randomx::superscalarAdd%d' % i) for i in range(1, 8)]
+    csize = FI.const('randomx::CacheSize')
+    F, hs = jit.handlers(ctx, 'a64')
+    g = F.func('randomx::JitCompilerA64::generateSuperscalarHash')
+    R.saw(fn=g['q'])
+    o = ctx.obj('a64')
+    P = rtasm.Prog(o, 'a64')
+    R.saw(unit='src/jit_compiler_a64_static.S', config='K2')
+    s_beg, s_pre, s_mix, s_st, s_end = (P.sym('randomx_calc_dataset_item_aarch64' + x) for x in ('', '_prefetch', '_mix', '_store_result', '_end'))
+    where = 'src/jit_compiler_a64_static.S:randomx_calc_dataset_item_aarch64'
+    from rules import bitlin
+
+    class M(DsMachine):
+        def __init__(self):
+            DsMachine.__init__(self, list(range(8)))
+            self.x = {}
+
+        def step(self, w, where_):
+            f = lambda lo, n: (w >> lo) & ((1 << n) - 1)
+            if (w & 0xFFC00000) in (0xA9000000, 0xA9400000) and f(5, 5) == 31:      # stp / ldp with the frame: spill / reload (A64-RT-PRESERVE)
+                return 'frame'
+            if (w & 0xFF8003FF) in (0xD10003FF, 0x910003FF):
+                return 'sp'
+            if (w & 0xFFC00000) == 0xA9000000:                                     # stp (signed offset), 64-bit
+                imm = f(15, 7)
+                imm = (imm - 128 if imm >= 64 else imm) * 8
+                a = add(self.get(f(5, 5)), const(imm))
+                self.stores.append((a, self.get(f(0, 5))))
+                self.stores.append((add(a, const(8)), self.get(f(10, 5))))
+                return 'stp'
+            if (w & 0xFF000000) == 0x58000000:                                     # ldr (literal)
+                imm = f(5, 19)
+                imm = imm - (1 << 19) if imm >> 18 else imm
+                self.put(f(0, 5), const(o.u64(self.pc + 4 * imm)))
+                return 'ldr='
+            if (w & 0xFF200000) == 0x8B000000 and f(22, 2) == 0:                    # add (shifted register, lsl)
+                self.put(f(0, 5), add(self.get(f(5, 5)), T.scale(self.get(f(16, 5)), 1 << f(10, 6))))
+                return 'add lsl'
+            if (w & 0xFFE0FFE0) == 0xAA0003E0:                                      # mov xd, xm
+                self.put(f(0, 5), self.get(f(16, 5)))
+                return 'mov'
+            if (w & 0xFC000000) == 0x14000000:
+                return 'b'
+            if w == 0xD65F03C0:
+                return 'ret'
+            return DsMachine.step(self, w, where_)
+
+    def run(m, lo, hi, patch=None):
+        tr = []
+        for a in P.order:
+            if lo <= a < hi and P.ins[a].kind != 'data':
+                m.pc = a
+                tr.append(m.step((patch or {}).get(a, P.ins[a].raw), where))
+        return tr
+
+    def report(inst, got, want, tr):
+        verdict, how = bitlin.decide(got, want)
+        if verdict == 'eq':
+            R.ok(inst, where)
+        elif verdict == 'unknown':
+            raise AnalysisBroken('A64-DSITEM-HSEM: %s is %s, expected %s; undecided' % (inst, T.term_show(got, None), T.term_show(want, None)))
+        else:
+            R.violation(inst, where, expected=T.term_show(want, None), found='%s after `%s`; %s' % (T.term_show(got, None), ' ; '.join(tr), how))
+    # (a) initialisation: up to the branch over the constants
+    m = M()
+    first_b = next(a for a in P.order if s_beg <= a < s_pre and P.ins[a].mnem == 'b')
+    tr = run(m, s_beg, first_b)
+    item, cache, out = atom(('undef', 2)), atom(('undef', 0)), atom(('undef', 1))
+    r0 = T.scale(add(item, const(1)), mul0)
+    report('r0 = (item + 1) * superscalarMul0', m.get(0), r0, tr)
+    for i in range(1, 8):
+        report('r%d = r0 ^ superscalarAdd%d' % (i, i), m.get(i), xor(r0, const(adds[i - 1])), tr)
+    regv, cachep, outp = [r for r in range(8, 14) if m.x.get(r) == item], [r for r in range(8, 14) if m.x.get(r) == cache], [r for r in range(8, 14) if m.x.get(r) == out]
+    R.check(len(regv) == 1 and len(cachep) == 1 and len(outp) == 1, 'register value / cache pointer / output pointer kept in three registers', where, expected='one register each', found='%s / %s / %s' % (regv, cachep, outp))
+    if not (len(regv) == 1 and len(cachep) == 1 and len(outp) == 1):
+        return
+    regv, cachep, outp = regv[0], cachep[0], outp[0]
+    # (b) line selection, with the mask word of generateSuperscalarHash
+    cand = [val(x['a'][0]) for x in walk(g['body']) if x['k'] == 'Call' and x.get('name') == 'emit32' and x.get('a') and val(x['a'][0]) is not None and (val(x['a'][0]) & 0xFF800000) == 0x92000000]
+    if len(cand) != 1:
+        raise AnalysisBroken('A64-DSITEM-HSEM: expected one constant `and x, x, #imm` word in generateSuperscalarHash, found %d' % len(cand))
+    m = M()
+    m.x = {regv: atom(('undef', 101)), cachep: atom(('undef', 102))}
+    tr = run(m, s_pre, s_mix, {s_pre: cand[0]})
+    linep = [r for r in range(8, 14) if r not in (regv, cachep, outp) and r in m.x]
+    want_line = add(atom(('undef', 102)), T.scale(X.and_(atom(('undef', 101)), const(csize // 64 - 1)), 64))
+    R.check(len(m.prefetch) == 1, 'prefetch of the selected line', where, expected='one prefetch', found=len(m.prefetch))
+    if not linep:
+        R.violation('cache line pointer', where, expected=T.term_show(want_line, None), found='no register written')
+        return
+    lp = [r for r in linep if bitlin.decide(m.get(r), want_line)[0] == 'eq']
+    if not lp:
+        R.violation('cache line pointer', where, expected=T.term_show(want_line, None), found='; '.join('x%d = %s' % (r, T.term_show(m.get(r), None)) for r in linep) + ' after `%s`' % ' ; '.join(tr))
+        return
+    R.ok('cache line pointer (x%d)' % lp[0], where)
+    # the register-value update the generator emits after every round: mov x<regv>, x<address register>
+    upd = None
+    for x in walk(g['body']):
+        if x['k'] == 'Call' and x.get('name') == 'emit32' and x.get('a') and 'getAddressRegister' in astq.show(x['a'][0]):
+            cpart, shift = 0, None
+            leaves = []
+
+            def flat(n):
+                n = astq.strip_all(n)
+                if n['k'] == 'Bin' and n.get('op') == '|' and val(n) is None:
+                    flat(n['l'])
+                    flat(n['r'])
+                else:
+                    leaves.append(n)
+            flat(x['a'][0])
+            for lf in leaves:
+                v = val(lf)
+                if v is not None:
+                    cpart |= v
+                elif lf['k'] == 'Bin' and lf.get('op') == '<<' and val(lf['r']) is not None:
+                    shift = val(lf['r'])
+            upd = (cpart, shift, x.get('ln'))
+    if upd is None:
+        R.violation('register value update', '%s:%d' % (g['file'], g['line']), expected='a word that moves the address register of the program into x%d after every round' % regv, found='no such emit32')
+    else:
+        mm = M()
+        mm.x = {i: atom(('reg', i)) for i in range(8)}
+        ok = True
+        for ar in range(8):
+            mm2 = M()
+            mm2.x = {i: atom(('reg', i)) for i in range(8)}
+            try:
+                mm2.step(upd[0] | (ar << (upd[1] or 0)), where)
+            except AnalysisBroken:
+                ok = False
+                break
+            if mm2.get(regv) != atom(('reg', ar)) or any(mm2.get(i) != atom(('reg', i)) for i in range(8)):
+                ok = False
+        R.check(ok, 'register value update', '%s:%d' % (g['file'], upd[2] or g['line']), expected='mov x%d, x<address register> for each of the eight registers' % regv, found='word %#010x | reg << %s' % (upd[0], upd[1]))
+    # (c) mixing in the line
+    m = M()
+    m.x = {i: atom(('reg', i)) for i in range(8)}
+    m.x[lp[0]] = atom(('undef', 103))
+    tr = run(m, s_mix, s_st)
+    for i in range(8):
+        report('r%d ^= word %d of the line' % (i, i), m.get(i), xor(atom(('reg', i)), X.ld64(add(atom(('undef', 103)), const(8 * i)))), tr)
+    # (d) result
+    m = M()
+    m.x = {i: atom(('reg', i)) for i in range(8)}
+    m.x[outp] = atom(('undef', 104))
+    tr = run(m, s_st, s_end)
+    got = sorted(((T.term_show(a, None), T.term_show(v, None)) for a, v in m.stores))
+    want = sorted((T.term_show(add(atom(('undef', 104)), const(8 * i)), None), T.term_show(atom(('reg', i)), None)) for i in range(8))
+    R.check(got == want, 'result: r0..r7 at output + 8i', where, expected=want[:3], found=got[:4])
